@@ -1,43 +1,64 @@
 import RModel.Props.C12
 /-
-  C12 — the table-dependent witnesses of known defects (kept apart from `Props/C12.lean` on purpose:
-  these theorems say what is WRONG in today's source, so a repair in /repo makes them fail; the check
-  then records "finding no longer reproduces" instead of a broken proof).
+  C12 — the table-level defects of the PINNED tree (before the repo commits 451dd24, 35d666f, d33e63d, 469c078),
+  kept as theorems over explicit old-style constants, not over the regenerated `Gen.LockUsers`: they document
+  what the repairs changed and compile whatever the source looks like.  The statements about TODAY's source
+  live in `Props/C12.lean` (`all_mutators_lock`, `lockers_exactly`, `drop_is_content_checked`, …); a repaired
+  defect that comes back flips one of those.
 -/
 namespace C12
 open Gen.LockUsers
 
-/-- exactly these commands reach `LockFile::acquire` (`search` = `plan` with `dry_run = true`, for which
-    the guard `if dry_run { None }` skips the lock) -/
-theorem lockers_exactly :
-    (table.filter (·.locks)).map (·.cmd) = [.search, .rename, .plan, .testLock] ∧
-    (table.filter (·.unlessDryRun)).map (·.cmd) = [.search, .rename, .plan] := by decide
+/-- the lock-user table of the pinned tree (`translate/lock_users.py` on commit fa72c86) -/
+def oldTable : List Row := [
+  ⟨.init, false, false, false, false⟩,
+  ⟨.search, true, true, true, true⟩,
+  ⟨.rename, true, false, true, true⟩,
+  ⟨.replace, false, false, false, false⟩,
+  ⟨.plan, true, true, true, true⟩,
+  ⟨.apply, false, false, false, false⟩,
+  ⟨.undo, false, false, false, false⟩,
+  ⟨.redo, false, false, false, false⟩,
+  ⟨.status, false, false, false, false⟩,
+  ⟨.history, false, false, false, false⟩,
+  ⟨.version, false, false, false, false⟩,
+  ⟨.testLock, true, false, true, true⟩
+]
 
-theorem C12_witness_unlocked_apply : locks .apply = false := by decide
-theorem C12_witness_unlocked_undo : locks .undo = false := by decide
-theorem C12_witness_unlocked_redo : locks .redo = false := by decide
-theorem C12_witness_unlocked_replace : locks .replace = false := by decide
+def locksIn (t : List Row) (c : Command) : Bool := t.any (fun r => r.cmd == c && r.locks)
 
-/-- today's source never removes an unparsable lock file (`malformed_blocks`) and creates its lock file
-    empty before writing it (`create_new` … `write_all`) -/
-theorem C12_witness_malformed_in_source : abandonPolicy = .none ∧ publishByLink = false := by decide
+/-- `locksIn` on the regenerated table is `Gen.LockUsers.locks` -/
+theorem locksIn_table (c : Command) : locksIn table c = locks c := rfl
 
-/-- today's Drop (and `release_held_locks`) do not look at the content of the file they remove
-    (`drop_removes_foreign`) -/
-theorem C12_witness_drop_unchecked_in_source : dropChecksContent = false := by decide
+theorem lockers_exactly_old :
+    (oldTable.filter (·.locks)).map (·.cmd) = [.search, .rename, .plan, .testLock] := by decide
 
-/-- no command calls the content-checked `release()`: what runs at the end of a command is `Drop`, the
-    unconditional unlink modelled by `Lock.step` at `dropUnlink` (see `C12_witness_drop_removes_foreign`) -/
-theorem C12_witness_release_never_called : releaseCallSites = 0 := by decide
+theorem C12_witness_unlocked_apply_old : locksIn oldTable .apply = false := by decide
+theorem C12_witness_unlocked_undo_old : locksIn oldTable .undo = false := by decide
+theorem C12_witness_unlocked_redo_old : locksIn oldTable .redo = false := by decide
+theorem C12_witness_unlocked_replace_old : locksIn oldTable .replace = false := by decide
 
-/-- `C12_all_mutators_lock` is false today -/
-theorem C12_all_mutators_lock_false : ¬ C12_all_mutators_lock := by
-  intro h
-  have h1 := h .apply (by decide)
-  have h2 := h .undo (by decide)
-  have h3 := h .redo (by decide)
-  have h4 := h .replace (by decide)
-  revert h1 h2 h3 h4
-  decide
+/-- `C12_all_mutators_lock` was false on the pinned tree -/
+theorem C12_all_mutators_lock_false_old : ¬ ∀ c ∈ mutating, locksIn oldTable c = true := by decide
+
+/-- the pinned `lock.rs`: no unparsable file is ever removed, the lock file is created empty and written
+    afterwards, Drop does not look at the content, the age is a plain subtraction — the model variant of
+    `C12_witness_malformed_blocks`, `C12_witness_drop_removes_foreign`, `C12_witness_future_ts_panics` -/
+def oldAbandon : Lock.Abandon := .none
+def oldPublishByLink : Bool := false
+def oldDropChecks : Bool := false
+def oldAgeSaturates : Bool := false
+
+theorem old_acquire_shape :
+    Lock.expectedAcquireShape oldAbandon oldPublishByLink =
+      [.exists, .fileOpen, .readToString, .removeFile, .removeFile, .createDirAll,
+       .openOptionsNew, .optWrite, .optCreateNew, .optOpen, .writeAll, .removeFile] ∧
+    Lock.expectedDropShape oldDropChecks = [.exists, .removeFile] := by decide
+
+/-- the model states of the witnesses in `Props/C12.lean` are the old variant: `base` builds them with these flags -/
+theorem witnesses_use_old_variant (n now : Nat) (d e : Bool) :
+    (Lock.initAbsent n now d e).abandon = oldAbandon ∧ (Lock.initAbsent n now d e).atomicPublish = oldPublishByLink ∧
+    (Lock.initAbsent n now d e).dropChecks = oldDropChecks ∧ (Lock.initAbsent n now d e).saturating = oldAgeSaturates :=
+  ⟨rfl, rfl, rfl, rfl⟩
 
 end C12
